@@ -523,6 +523,10 @@ class BaseNetQASMConnection(abc.ABC):
 
         subroutine = self._builder.subrt_compile_subroutine(protosubroutine)
 
+        # The arrays and registers of these operations are declared and returned by the
+        # compiled subroutine, so a later subroutine should not do this again.
+        self._builder._reset()
+
         return subroutine
 
     def commit_protosubroutine(
